@@ -985,6 +985,25 @@ func (p *Parser) parseBlockStmt() *ast.BlockStmt {
 	stmt := &ast.BlockStmt{Token: p.curToken}
 
 	for !p.curTokenIs(token.END) {
+		if p.curTokenIs(token.EOF) {
+			p.newError(
+				p.curToken.ErrorLine(),
+				fail.ErrWrongNextToken,
+				token.String(token.END),
+				token.String(token.EOF),
+			)
+			return stmt
+		}
+
+		if p.curTokenIs(token.ILLEGAL) {
+			p.newError(
+				p.curToken.ErrorLine(),
+				fail.ErrIllegalToken,
+				p.curToken.Literal,
+			)
+			return stmt
+		}
+
 		block := p.parseStatement()
 
 		if block != nil {
